@@ -230,7 +230,7 @@ fn deliver<C: Chan>(e: &'static Engine, workers: usize, senders: &'static [(char
         let results = results.clone();
         hs.push(spawn_part(e, *k, move || {
             let g = receive::<C>(e, &rx, ops, true);
-            results.lock().unwrap()[i] = g;
+            results.lock().unwrap_or_else(|e| e.into_inner())[i] = g;
             drop(rx);
         }));
     }
@@ -271,7 +271,7 @@ fn deliver<C: Chan>(e: &'static Engine, workers: usize, senders: &'static [(char
         }
     }
     // ---- oracle
-    let res = results.lock().unwrap().clone();
+    let res = results.lock().unwrap_or_else(|e| e.into_inner()).clone();
     let mut all: Vec<u32> = vec![];
     for (r, g) in res.iter().enumerate() {
         let vals: Vec<u32> = g.iter().filter_map(|x| if let Got::V(v) = x { Some(*v) } else { None }).collect();
@@ -333,7 +333,7 @@ fn rx_gone<C: Chan>(e: &'static Engine, workers: usize, senders: &'static [(char
         let results = results.clone();
         hs.push(spawn_part(e, rx_kind, move || {
             let g = receive::<C>(e, &rx, rx_ops, false);
-            results.lock().unwrap().0 = g;
+            results.lock().unwrap_or_else(|e| e.into_inner()).0 = g;
             drop(rx);
             RX_GONE.store(true, std::sync::atomic::Ordering::SeqCst);
         }));
@@ -366,7 +366,7 @@ fn rx_gone<C: Chan>(e: &'static Engine, workers: usize, senders: &'static [(char
                     }
                 }
             }
-            results.lock().unwrap().1.extend(mine);
+            results.lock().unwrap_or_else(|e| e.into_inner()).1.extend(mine);
             drop(tx);
         }));
     }
@@ -375,7 +375,7 @@ fn rx_gone<C: Chan>(e: &'static Engine, workers: usize, senders: &'static [(char
             e.fail("unexpected_panic", "a participant panicked");
         }
     }
-    let (got, sends) = results.lock().unwrap().clone();
+    let (got, sends) = results.lock().unwrap_or_else(|e| e.into_inner()).clone();
     let vals: Vec<u32> = got.iter().filter_map(|x| if let Got::V(v) = x { Some(*v) } else { None }).collect();
     for v in vals.iter() {
         if !sends.iter().any(|(id, ok)| id == v && *ok) {
@@ -418,7 +418,7 @@ fn deliver_hold<C: Chan>(e: &'static Engine, workers: usize, senders: &'static [
         let (results, done, left) = (results.clone(), done.clone(), left.clone());
         hs.push(spawn_part(e, *k, move || {
             let g = receive::<C>(e, &rx, ops, false);
-            results.lock().unwrap()[i] = g;
+            results.lock().unwrap_or_else(|e| e.into_inner())[i] = g;
             if left.fetch_sub(1, std::sync::atomic::Ordering::SeqCst) == 1 {
                 done.fire();
             }
@@ -459,7 +459,7 @@ fn deliver_hold<C: Chan>(e: &'static Engine, workers: usize, senders: &'static [
             e.fail("unexpected_panic", "a participant panicked");
         }
     }
-    let res = results.lock().unwrap().clone();
+    let res = results.lock().unwrap_or_else(|e| e.into_inner()).clone();
     let mut all: Vec<u32> = vec![];
     for g in res.iter() {
         for x in g.iter() {
